@@ -14,8 +14,20 @@ def with_closed(spec, cl):
     return Spec(cl, spec.init, spec.rows)
 
 
+def gap_shape(rng, cl):
+    """shapes on which reasoning through step changes goes wrong: a genuine step point whose step change is zero
+    (equal values on both sides of an undefined piece; undefined towards minus infinity with first defined value 0)"""
+    v = Fraction(rng.choice([2, 1, -3]))
+    p0 = Fraction(rng.choice([0, 1, 2]))
+    if rng.random() < 0.6:
+        return Spec(cl, Fraction(0), [(p0 + 1, v), (p0 + 2, None), (p0 + 3, v), (p0 + 6, Fraction(0))])
+    return Spec(cl, None, [(p0 + 1, Fraction(0)), (p0 + 2, Fraction(5)), (p0 + 4, Fraction(0)), (p0 + 6, None)])
+
+
 def pick_spec(rng, cl=None, small_p=0.5, **kw):
     cl = cl or rng.choice("LR")
+    if kw.get("nanp", 0.25) > 0 and kw.get("vals") is None and not kw.get("quarter") and rng.random() < 0.06:
+        return gap_shape(rng, cl)
     if rng.random() < small_p:
         return with_closed(rng.choice(SMALL), cl)
     return rand_spec(rng, cl, **kw)
@@ -546,6 +558,33 @@ def gen_overflow_block(rng, n):
     return progs
 
 
+def gen_offset_block(rng, n):
+    """values with a large common offset (2^17 + small): mean / var / std must still be the moments of the values.
+    The offset is chosen so that the documented computation (deviations from the mean, then squares) stays within
+    the comparison tolerance (|error| <= 2*dev*ulp(2^17) ~ 2^-33) while any algebraically equal but numerically
+    different route (E[X^2] - E[X]^2: ulp(2^34) ~ 2^-19) does not."""
+    progs = []
+    base = 2 ** 17
+    vals = [Fraction(base + d) for d in (0, 1, 2, 3, -1, -2)] + [Fraction(2 * base + 1, 2)]
+    for _ in range(n):
+        b = Builder(rng.choice(["int", "float", "dt", "td"]))
+        while True:
+            f = rand_spec(rng, None, maxsteps=6, span=10, nanp=0.25, vals=vals, stepfree_p=0.0)
+            if len(f.rows) >= 3 and spec_pieces(f):
+                break
+        a = b.emit(f, rng.choice(["fromvalues", "layers", "layerv"]), rng)
+        b.add(f"vsums {a}", focus=True)
+        for name in ("mean", "var", "std2"):
+            b.add(f"stat {a} {name} none none default ;; via=method", focus=True)
+        lo, hi = window_choice(rng, b, p_none=0.0)
+        if lo is not None and hi is not None and spec_pieces(f, lo, hi):
+            for name in ("mean", "var"):
+                b.add(f"stat {a} {name} {fs(lo)} {fs(hi)} default ;; via=agg", focus=True)
+        b.tags.update(kind="offset")
+        progs.append(b.program())
+    return progs
+
+
 # ----------------------------------------------------------------------------- C09
 P_POOL = [Fraction(x) for x in (0, 100, 50, 25, 75, 10, 90, 1, 99)] + [Fraction(75, 2), Fraction(125, 2), Fraction(100, 3)]
 
@@ -666,7 +705,27 @@ def gen_c10(rng, n, exhaustive=False):
     for _ in range(n):
         b = Builder(pick_domain(rng))
         f = pick_spec(rng, small_p=0.6, nanp=0.3)
+        tail_only = rng.random() < 0.15
+        if tail_only:
+            # defined on an unbounded piece only: every step value undefined (left tail) or only the last one defined
+            pts = sorted(rng.sample(range(0, 9), rng.randint(1, 3)))
+            v = rng.choice([Fraction(x) for x in (4, -1, 2, Fraction(1, 2))])
+            if rng.random() < 0.6:
+                f = Spec(rng.choice("LR"), v, [(Fraction(pts[0]), None)])
+            else:
+                f = Spec(rng.choice("LR"), None, [(Fraction(pts[-1]), v)])
         a = b.emit_any(f, rng)
+        if tail_only:
+            for name in ("min", "max"):
+                b.add(f"stat {a} {name} none none default" + opt_suffix([rng.choice(["via=method", "via=agg"])]), focus=True)
+            b.add(f"stat {a} minmax none none default", focus=True)
+            b.add(f"vir {a} none none default", focus=True)
+            if rng.random() < 0.5:
+                # the same through an operation result (the step values of the result are all undefined too)
+                r = b.reg()
+                b.add(f"bin {r} {rng.choice(['add', 'mul'])} {a} #{rng.choice([1, 2, -1])}")
+                for name in ("min", "max"):
+                    b.add(f"stat {r} {name} none none default ;; via=method", focus=True)
         for _ in range(6):
             crit = b.critical()
             pool = crit[1:-1] + [None]
@@ -747,11 +806,20 @@ def gen_c11_periods(rng, n):
         ints = sorted({int(p) for p in f.points() if Fraction(p).denominator == 1} | {0})
         a0 = rng.choice(ints) - rng.choice([0, 1])
         n0 = rng.randint(1, 4)
-        ivs = [(Fraction(a0 + i), Fraction(a0 + i + 1)) for i in range(n0)]
+        extra = ""
+        if rng.random() < 0.5:
+            # periods with gaps between them (each period is still exactly one slice)
+            starts = sorted(rng.sample(range(a0, a0 + 8), n0))
+            extra = " pform=list"
+        else:
+            starts = [a0 + i for i in range(n0)]
+            if rng.random() < 0.3:
+                extra = " pform=list"
+        ivs = [(Fraction(s0), Fraction(s0 + 1)) for s0 in starts]
         ivstr = " ".join(f"{fs(l)}:{fs(r)}" for l, r in ivs)
         c = rng.choice(["left", "right", "both", "neither", "default"])
-        for name in ("min", "max", "mean"):
-            b.add(f"slicer {a} {name} {c} {ivstr} ;; cuts=period", focus=True)
+        for name in ("min", "max", "mean", "integral"):
+            b.add(f"slicer {a} {name} {c} {ivstr} ;; cuts=period" + extra, focus=True)
         b.tags.update(kind="period", iclosed=c)
         progs.append(b.program())
     return progs
@@ -1063,6 +1131,13 @@ def gen_c13(rng, n):
         cl = rng.choice("LR")
         fa = pick_spec(rng, cl, small_p=0.4, nanp=0.2)
         fb = pick_spec(rng, cl, small_p=0.4, nanp=0.2)
+        if rng.random() < 0.15:
+            # a step-free operand closed on the OTHER side (legal: it has no step points, so its side is not
+            # compared) – the operation must leave that object, including its closed side, as it was
+            other = "R" if cl == "L" else "L"
+            fb = Spec(other, rng.choice([Fraction(0), Fraction(1), Fraction(-2), None]), [])
+            if rng.random() < 0.5:
+                fa, fb = fb, with_closed(fa, cl)
         A = b.emit_any(fa, rng)
         B = b.emit_any(fb, rng)
         want = None
@@ -1327,7 +1402,8 @@ def gen_c16_provenance(rng, n):
     """one operation on one function under every provenance / materialisation state, then the result and the operand are
     both used again: the outcome may not depend on how the operand was built or what has been read from it"""
     progs = []
-    shapes = ["random", "random", "gap_after_first", "leading_gap", "trailing_gap"]
+    shapes = ["random", "random", "gap_after_first", "leading_gap", "trailing_gap", "equal_around_gap", "equal_around_gap",
+              "leading_gap_zero"]
     for _ in range(n):
         b = Builder(pick_domain(rng))
         cl = rng.choice("LR")
@@ -1338,6 +1414,14 @@ def gen_c16_provenance(rng, n):
             f = Spec(cl, Fraction(rng.choice([1, 3, -2])), [(Fraction(1), None), (Fraction(3), Fraction(rng.choice([2, 5]))), (Fraction(6), Fraction(0))])
         elif shape == "leading_gap":
             f = Spec(cl, None, [(Fraction(2), Fraction(rng.choice([2, 5]))), (Fraction(5), Fraction(1))])
+        elif shape == "equal_around_gap":
+            # the same value on both sides of an undefined piece: the step change across the gap is zero although the
+            # step point is genuine
+            v = Fraction(rng.choice([2, 1, -3]))
+            f = Spec(cl, Fraction(0), [(Fraction(1), v), (Fraction(2), None), (Fraction(3), v), (Fraction(6), Fraction(0))])
+        elif shape == "leading_gap_zero":
+            # undefined towards minus infinity, first defined value 0 (again a zero step change at a genuine step point)
+            f = Spec(cl, None, [(Fraction(1), Fraction(0)), (Fraction(2), Fraction(5)), (Fraction(4), Fraction(0)), (Fraction(6), None)])
         else:
             f = Spec(cl, Fraction(2), [(Fraction(2), Fraction(4)), (Fraction(5), None)])
         route = rng.choice(["fromvalues", "layers", "layerv", "ctor"])
@@ -1415,8 +1499,31 @@ def gen_c16(rng, n):
 
 
 # ----------------------------------------------------------------------------- C18 aggregation
-def gen_c18(rng, n):
+def gen_matrices(rng, n):
+    """cov / corr matrices of 2-5 members (some with undefined regions the others do not share): every entry is the
+    pairwise Stairs result, the matrix is symmetric, corr has a unit diagonal"""
     progs = []
+    for _ in range(n):
+        b = Builder(pick_domain(rng))
+        cl = rng.choice("LR")
+        k = rng.choice([2, 3, 4, 4, 5])
+        members = [b.emit_any(pick_spec(rng, cl, small_p=0.2, nanp=rng.choice([0.0, 0.25, 0.4]), stepfree_p=0.0, maxsteps=5), rng)
+                   for _ in range(k)]
+        b.note_points([0, 10])
+        via = rng.choice(["", " ;; via=accessor", " ;; via=sarray"])
+        for which in ("cov", "corr"):
+            b.add(f"covm {which} 0 10 " + " ".join(members) + via, focus=True)
+        # and pairwise, the same numbers
+        i, j = rng.sample(range(k), 2)
+        b.add(f"cov {members[i]} {members[j]} 0 10 0 pre", focus=True)
+        b.add(f"corr {members[i]} {members[j]} 0 10 0 pre", focus=True)
+        b.tags.update(kind="matrix", size=k)
+        progs.append(b.program())
+    return progs
+
+
+def gen_c18(rng, n):
+    progs = gen_matrices(rng, max(20, n // 10))
     for _ in range(n):
         b = Builder(pick_domain(rng))
         cl = rng.choice("LR")
@@ -1502,7 +1609,7 @@ def gen_c19(rng, n):
             b.add(f"covm cov 0 10 {A} {B} {C}" + via, focus=True)
             b.add(f"covm corr 0 10 {A} {B} {C}" + via, focus=True)
         progs.append(b.program())
-    return progs
+    return progs + gen_matrices(rng, max(15, n // 10))
 
 
 # ----------------------------------------------------------------------------- C20 shift / diff / rolling
